@@ -186,6 +186,9 @@ func (e *byteEnv) eval(v ssa.Value) (int64, bool) {
 			}
 			return 0, true
 		}
+		if cal != nil && e.w.InModule(cal) && len(x.Common().Args) >= 2 {
+			return e.evalWindowPredicate(x, cal)
+		}
 		if cal == nil || len(x.Common().Args) != 1 || !e.w.InModule(cal) {
 			return 0, false
 		}
@@ -207,6 +210,96 @@ func (e *byteEnv) eval(v ssa.Value) (int64, bool) {
 		return 0, true
 	}
 	return 0, false
+}
+
+// evalWindowPredicate evaluates a call of a module predicate over the scanned slice and an index (a window test
+// extracted into a helper, e.g. isPercentEncoded(v, i)): the callee's body is explored with its slice parameter bound
+// to the scanned slice and its index parameter bound to the caller's index (plus a constant), following both successors
+// where a condition cannot be evaluated; the result is known when every reachable return yields the same known value.
+func (e *byteEnv) evalWindowPredicate(c *ssa.Call, cal *ssa.Function) (int64, bool) {
+	if cal.Blocks == nil || cal.Signature.Results().Len() != 1 || !isBool(cal.Signature.Results().At(0).Type()) {
+		return 0, false
+	}
+	bi, ii, shift := -1, -1, 0
+	for ai, a := range c.Common().Args {
+		if ai >= len(cal.Params) {
+			return 0, false
+		}
+		if a == e.base {
+			bi = ai
+		} else if off, ok := e.offsetOf(a); ok {
+			ii, shift = ai, off
+		}
+	}
+	if bi < 0 || ii < 0 {
+		return 0, false
+	}
+	child := &byteEnv{w: e.w, base: cal.Params[bi], idx: cal.Params[ii], vals: map[int]int{}}
+	for off, v := range e.vals {
+		child.vals[off-shift] = v
+	}
+	var results []int64
+	unknown := false
+	var path []*ssa.BasicBlock
+	steps := 0
+	var walk func(b *ssa.BasicBlock)
+	walk = func(b *ssa.BasicBlock) {
+		steps++
+		if unknown || steps > 400 {
+			unknown = true
+			return
+		}
+		for _, p := range path {
+			if p == b {
+				unknown = true // a loop: give up
+				return
+			}
+		}
+		path = append(path, b)
+		defer func() { path = path[:len(path)-1] }()
+		for _, ins := range b.Instrs {
+			switch ins.(type) {
+			case *ssa.Store, *ssa.MapUpdate, *ssa.Go, *ssa.Defer, *ssa.Send, *ssa.Panic:
+				unknown = true
+				return
+			}
+		}
+		switch t := b.Instrs[len(b.Instrs)-1].(type) {
+		case *ssa.Return:
+			v, ok := child.eval(resolveAlong(t.Results[0], path))
+			if !ok {
+				unknown = true
+				return
+			}
+			results = append(results, v)
+		case *ssa.If:
+			v, ok := child.eval(resolveAlong(t.Cond, path))
+			if ok {
+				if v != 0 {
+					walk(b.Succs[0])
+				} else {
+					walk(b.Succs[1])
+				}
+				return
+			}
+			walk(b.Succs[0])
+			walk(b.Succs[1])
+		case *ssa.Jump:
+			walk(b.Succs[0])
+		default:
+			unknown = true
+		}
+	}
+	walk(cal.Blocks[0])
+	if unknown || len(results) == 0 {
+		return 0, false
+	}
+	for _, r := range results[1:] {
+		if r != results[0] {
+			return 0, false
+		}
+	}
+	return results[0], true
 }
 
 // acceptedAt: the byte values at `offset` compatible with all branch facts of the path.
